@@ -20,6 +20,11 @@ ALL = ["C01", "C02", "C04", "C05", "C06", "C07", "C08", "C11", "C12", "C13", "C1
 def main():
     eqs = json.load(open(os.path.join(HERE, "equivalents.json")))
     sel = sys.argv[1:]
+    only = None
+    if "--props" in sel:
+        i = sel.index("--props")
+        only = sel[i + 1].split(",")
+        sel = sel[:i] + sel[i + 2:]
     if sel:
         eqs = [m for m in eqs if any(s in m["name"] for s in sel)]
     tmp = tempfile.mkdtemp(prefix="mjsa-equiv-")
@@ -48,6 +53,8 @@ def main():
                 open(p, "w").write(src.replace(e["old"], e["new"]))
             if ok_apply:
                 props = ALL if m["properties"] == "ALL" else m["properties"]
+                if only:
+                    props = [p_ for p_ in props if p_ in only]
 
                 def run_one(prop):
                     return subprocess.run([os.path.join(VERIF, "check"), prop, "--repo", base, "--evidence-dir", os.path.join(tmp, "ev-" + prop)],
